@@ -115,5 +115,23 @@ static void blk_sign_envelop(void) {
 		{ int ct; size_t ol = 0; const uint8_t *ri, *si, *sc, *scr, *s1, *s2; size_t ril, sil, scl, scrl, s1l, s2l; r = cms_deenvelop_and_verify(MSG, ml, &RKEY[3][0], RCERT[3], RCL[3], NULL, 0, NULL, 0, &ct, OUT, &ol, &ri, &ril, &si, &sil, &sc, &scl, &scr, &scrl, &s1, &s1l, &s2, &s2l); vh_eval(vh_hash(kk, sizeof kk, 300)); if (nr_ < 4 && r == 1) vh_viol("C16:sign-and-envelop:non-recipient-opens", "\"recipients\":%d", nr_); }
 	}
 }
-static void body(void) { blk_sign(); blk_envelop(); blk_encrypt(); blk_sign_envelop(); }
+/* recipient sets whose members are easy to confuse: same serial under issuers whose names differ only in the last character, same issuer with
+   serials that are prefixes of one another / differ in the last octet. Every member must open the message, nobody else's key may. */
+static void blk_lookalike(void) {
+	if (!vh_block_begin("envelop-lookalike-recipients")) return;
+	static const struct { const char *i1, *i2; uint8_t s1[4]; size_t l1; uint8_t s2[4]; size_t l2; const char *name; } LK[] = {
+		{ "Issuing CA 1", "Issuing CA 2", { 1, 2, 3 }, 3, { 1, 2, 3 }, 3, "same-serial-issuers-differ-in-last-char" }, { "1 Issuing CA", "2 Issuing CA", { 1, 2, 3 }, 3, { 1, 2, 3 }, 3, "same-serial-issuers-differ-in-first-char" },
+		{ "CA", "CA", { 1 }, 1, { 1, 2 }, 2, "same-issuer-serial-is-prefix" }, { "CA", "CA", { 1, 2, 3 }, 3, { 1, 2, 4 }, 3, "same-issuer-serials-differ-in-last-octet" }, { "CA", "CB", { 9 }, 1, { 9 }, 1, "one-octet-serial-two-issuers" } };
+	for (int c = 0; c < 5; c++) for (int order = 0; order < 2; order++) { if (!vh_next()) continue; uint8_t cert[2][1024]; size_t cl[2] = { 0, 0 }; cert_spec s; spec_leaf(&s, "r0", X509_KU_KEY_ENCIPHERMENT); memcpy(s.serial, LK[c].s1, LK[c].l1); s.serial_len = LK[c].l1; if (make_cert(&s, &CK[4], &CK[8], LK[c].i1, cert[0], &cl[0]) != 1) vh_harness_error("cert");
+		spec_leaf(&s, "r1", X509_KU_KEY_ENCIPHERMENT); memcpy(s.serial, LK[c].s2, LK[c].l2); s.serial_len = LK[c].l2; if (make_cert(&s, &CK[5], &CK[9], LK[c].i2, cert[1], &cl[1]) != 1) vh_harness_error("cert");
+		static uint8_t rc[3000]; size_t rcl = 0; int a = order, b = 1 - order; memcpy(rc, cert[a], cl[a]); rcl = cl[a]; memcpy(rc + rcl, cert[b], cl[b]); rcl += cl[b]; size_t ml = 0; venv_reset(9100 + c * 2 + order); char key[200];
+		int r = cms_envelop(MSG, &ml, rc, rcl, OID_sm4_cbc, SK, 16, IV, 16, OID_cms_data, CONTENT, 33, NULL, 0, NULL, 0); vh_eval(vh_mix(9100 + c * 2 + order)); if (r != 1) { snprintf(key, sizeof key, "C16:envelop-lookalike:%s:refused", LK[c].name); vh_viol(key, "\"order\":%d", order); continue; }
+		for (int who = 0; who < 2; who++) { int ct; size_t ol = 0; const uint8_t *ri, *s1, *s2; size_t ril, s1l, s2l; r = cms_deenvelop(MSG, ml, &CK[4 + who], cert[who], cl[who], &ct, OUT, &ol, &ri, &ril, &s1, &s1l, &s2, &s2l); vh_eval(vh_mix(9200 + c * 4 + order * 2 + who));
+			if (r != 1 || ol != 33 || memcmp(OUT, CONTENT, 33)) { snprintf(key, sizeof key, "C16:envelop-lookalike:%s:recipient-cannot-open", LK[c].name); vh_viol(key, "\"recipient\":%d,\"position\":%d,\"ret\":%d", who, who == a ? 0 : 1, r); }
+			/* the other member's certificate with this member's key must not open */
+			r = cms_deenvelop(MSG, ml, &CK[4 + who], cert[1 - who], cl[1 - who], &ct, OUT, &ol, &ri, &ril, &s1, &s1l, &s2, &s2l); if (r == 1) { snprintf(key, sizeof key, "C16:envelop-lookalike:%s:opens-with-the-other-members-certificate", LK[c].name); vh_viol(key, "\"recipient\":%d", who); } }
+		/* a message for ONE member only must not be opened by the look-alike */
+		ml = 0; venv_reset(9300 + c); r = cms_envelop(MSG, &ml, cert[a], cl[a], OID_sm4_cbc, SK, 16, IV, 16, OID_cms_data, CONTENT, 33, NULL, 0, NULL, 0); if (r == 1) { int ct; size_t ol = 0; const uint8_t *ri, *s1, *s2; size_t ril, s1l, s2l; r = cms_deenvelop(MSG, ml, &CK[4 + b], cert[b], cl[b], &ct, OUT, &ol, &ri, &ril, &s1, &s1l, &s2, &s2l); vh_eval(vh_mix(9400 + c * 2 + order)); if (r == 1) { snprintf(key, sizeof key, "C16:envelop-lookalike:%s:non-recipient-opens", LK[c].name); vh_viol(key, "\"order\":%d", order); } } }
+}
+static void body(void) { blk_sign(); blk_envelop(); blk_lookalike(); blk_encrypt(); blk_sign_envelop(); }
 int main(int argc, char **argv) { vh_init(argc, argv); if (!freopen("/dev/null", "w", stderr)) {} setup(); vh_guarded("C16", body, 120); return vh_finish(); }
